@@ -227,7 +227,7 @@ static void run_unit(const std::map<std::string,std::string>& spec)
         else if (second=="few" && rs.size()>1) { seconds.push_back(&ident); seconds.push_back(&rev); }
         // (second order, bystander follows?) pairs: the follow variant is added for the orders identity and reverse
         std::vector<std::pair<const std::vector<int>*,bool>> plans; for (auto* q : seconds) plans.push_back({q,false});
-        if (second!="none") { plans.push_back({&ident,true}); plans.push_back({&rev,true}); }
+        if (second!="none" && (rs.size()==1 || second=="all")) { plans.push_back({&ident,true}); plans.push_back({&rev,true}); }
         for (auto& plan : plans) {
             const std::vector<int>* pi2 = plan.first; const bool follow = plan.second;
             std::string rss; for (int r : rs) { rss += "[" + tab_str(S.cat[r]) + "]"; }
